@@ -71,6 +71,16 @@ DET = {
  "C15-m6": ("C15", "./check C15 --tier quick -> exit 1 (optimal: removal behind the written range skipped)", ""),
  "C16-m5": ("C16", "./check C16 --tier quick -> exit 1 (all-zero metadata gone after reopen)", "missed at first; metadata values now include all-zero ones"),
  "C16-m6": ("C16", "./check C16 --tier quick -> exit 1 (metadata rejected by a failing write is served until the reopen)", "missed at first; every call kind is hit by a fault and every other history ends without a retry"),
+ "C01-m5": ("C01", "./check C01 --tier quick -> exit 1 (member registered inside a 2500-leaf batch: its message is rejected)", "missed at first; history class big-batch (registration inside one batch of 2500 leaves) added"),
+ "C01-m6": ("C01", "./check C01 --tier quick -> exit 1 (member refused a proof after a restart / a vacate-and-reassign batch)", ""),
+ "C02-m5": ("C02", "./check C02 --tier quick -> exit 1 (root set whose bytes contain the root across a record boundary accepted)", "missed at first; root-set classes straddle1/8/16/31 added"),
+ "C02-m6": ("C02", "./check C02 --tier quick -> exit 1 (declared length + 2^32 accepted)", ""),
+ "C03-m5": ("C03", "./check C03 --tier quick -> exit 1 (recovery with the first message in its with-signal form returns nothing)", ""),
+ "C03-m6": ("C03", "./check C03 --tier quick -> exit 1 (secret 0 is not recovered)", ""),
+ "C12-m5": ("C12", "./check C12 --tier quick -> exit 1 (non-member request through the tree entry returns an unverifiable proof)", ""),
+ "C12-m6": ("C12", "./check C12 --tier quick -> exit 1 (19-level witness proves 'successfully')", ""),
+ "C13-m5": ("C13", "./check C13 --tier quick -> exit 1 (x + p / root + p accepted)", ""),
+ "C13-m6": ("C13", "./check C13 --tier quick -> exit 1 (roots buffer with a trailing partial entry panics)", ""),
  "C09-m1": ("C09", "./check C09 --tier quick -> exit 1 (Poseidon of 8 inputs: round certificate rejected)", ""),
  "C09-m2": ("C09", "./check C09 --tier quick -> exit 1 (byte-level / FFI hash of a 4097-byte signal differs from Keccak.tla)", "missed at first; hash-to-field lengths 4095, 4096, 4097 (8192, 10000 thorough) added"),
  "C11-m1": ("C11", "./check C11 --tier quick -> exit 1 (metadata after set_tree differs between FFI and API)", "missed at first; life-cycle scenario and set_tree inside random histories added"),
